@@ -30,12 +30,10 @@ Proof. reflexivity. Qed.
 
 (* _Slice.smoothed_means *)
 Lemma gen_wiring_Slice_smoothed_means :
-  wsrc_Slice_smoothed_means = Some (WTryValueError (w_matrix_of "smoothed_means") "`.means` is
-      undefined for a cube-result without a mean measure").
+  wsrc_Slice_smoothed_means = Some (WTryValueError (w_matrix_of "smoothed_means") "").
 Proof. reflexivity. Qed.
 
 (* _Strand.smoothed_means *)
 Lemma gen_wiring_Strand_smoothed_means :
-  wsrc_Strand_smoothed_means = Some (WTryValueError (w_vector_of "smoothed_means") "`.means` is
-      undefined for a cube-result without a mean measure").
+  wsrc_Strand_smoothed_means = Some (WTryValueError (w_vector_of "smoothed_means") "").
 Proof. reflexivity. Qed.
